@@ -41,9 +41,12 @@ Blame ==
   @@ "dn.recreate" :> {"C07"}
   @@ "exit.loop"  :> {"C03"}
   @@ "exit.loop.closed" :> {"C03", "C05"}
-  @@ "exit.loop.callback" :> {"C03"}
+  @@ "exit.loop.callback" :> {"C03", "C04"}
   @@ "exit.loop.callback.stream" :> {"C03", "C13", "C17"}
   @@ "cb.pb.undrained.mailbox" :> {"C04", "C05", "C03"} @@ "cb.pb.undrained.ctx" :> {"C04", "C03"} @@ "cb.pb.undrained.parent" :> {"C16"}
+  @@ "cb.pb.undrained.mailbox.fail" :> {"C04", "C05", "C03", "C06"} @@ "cb.pb.undrained.parent.fail" :> {"C16", "C06"}
+  @@ "cb.pb.undrained.ctx.fail" :> {"C04", "C03"} @@ "cb.pb.undrained.timer.fail" :> {"C10", "C03"} @@ "cb.pb.undrained.broker.fail" :> {"C09", "C06"}
+  @@ "cb.pb.undrained.stream.fail" :> {"C13"}
   @@ "cb.pb.undrained.timer" :> {"C10", "C03"} @@ "cb.pb.undrained.broker" :> {"C09"} @@ "cb.pb.undrained.stream" :> {"C13"}
   @@ "hb.phase.failed.timeout" :> {"C11", "C06"} @@ "hb.phase.failed.panic" :> {"C06", "C03"} @@ "hb.phase.failed.startErr" :> {"C06", "C03"}
   @@ "hb.phase.failed.cancel" :> {"C06"}
